@@ -134,9 +134,9 @@ func c18RR(s string) dns.RR {
 }
 
 type c18Msg struct {
-	name   string
-	desc   string
-	build  func() *dns.Msg
+	name  string
+	desc  string
+	build func() *dns.Msg
 }
 
 const c18ChunkW = 32
@@ -835,9 +835,8 @@ func c18Keys(r *fw.R, ms c18Msg, compress bool, a c18Alg) {
 	own := k.rr.Hdr.Name
 	for _, sg := range []*dns.SIG{s.wireSig, s.sig} {
 		// matching key
-		if _, rerr := rs.Verify(s.out, k.ref, k.ownerWire); rerr != nil {
-			r.Fail("internal/reference", "%s: reference rejects the matching key: %v", id, rerr)
-			return
+		if !s.refOK {
+			return // reported as sign/reference-rejects
 		}
 		if err, _ := c18Verify(sg, k.rr, s.out); err == nil {
 			r.Nontrivial()
